@@ -180,6 +180,9 @@ class Gen:
         elif self.profile == "collections":
             kinds = ["setmap"] * 7 + ["list"] * 3 + ["comb"] * 2 + ["usetop", "usetop", "stack", "arith", "option_or"] + \
                 (["ifnone", "dip", "iter"] if depth > 0 else [])
+        elif self.profile == "combs":
+            kinds = ["combpush"] * 8 + ["comb"] * 3 + ["pack"] * 2 + ["usetop"] * 3 + ["stack", "push", "option_or", "setmap", "list"] + \
+                (["ifnone", "dip", "iter", "if", "lambda"] if depth > 0 else [])
         elif self.profile == "core":
             kinds += ["ticket"]
             if self.d(st.integers(0, 60)) == 0:
@@ -296,6 +299,32 @@ class Gen:
             code.append(P("UNPAIR", I(self.d(st.integers(2, n)))))
         elif k in ("CAR", "CDR", "UNPAIR"):
             code.append(P(k))
+        return code
+
+    def c_combpush(self, ts, depth):
+        """PUSH of a right comb type (so that its type expression can carry annotations) + a comb instruction."""
+        n = self.d(st.integers(3, 6))
+        tys = [self.d(small_type(self.d(st.integers(0, 1)))) for _ in range(n)]
+        t = rv.pair_t(*tys)
+        code = [push(t, self.d(gt.values(t)))]
+        k = self.pick(["GET", "GET", "UPDATE", "UPDATE", "UNPAIRn", "UNPAIRn", "CAR", "CDR", "UNPAIR", "PACK", "PACKUNPACK", "keep",
+                       "COMPARE"])
+        if k == "GET":
+            code.append(P("GET", I(self.d(st.integers(0, 2 * n - 2)))))
+        elif k == "UPDATE":
+            idx = self.d(st.integers(0, 2 * n - 2))
+            t2 = self.d(small_type(0))
+            code += [push(t2, self.d(gt.values(t2))), P("UPDATE", I(idx))]
+        elif k == "UNPAIRn":
+            code.append(P("UNPAIR", I(self.d(st.integers(2, n)))))
+        elif k in ("CAR", "CDR", "UNPAIR"):
+            code.append(P(k))
+        elif k == "PACK" and rv.is_packable(t):
+            code.append(P("PACK"))
+        elif k == "PACKUNPACK" and rv.is_packable(t):
+            code += [P("PACK"), P("UNPACK", t)]
+        elif k == "COMPARE" and rv.is_comparable(t):
+            code += [push(t, self.d(gt.values(t))), P("COMPARE")]
         return code
 
     def c_option_or(self, ts, depth):
